@@ -48,6 +48,7 @@ class Check:
         self.decided = ""
         self.not_decided = ""
         self.extra = {}
+        self._seen = set()
         try:
             self.seed = int(os.environ.get("VERIF_SEED", "0"))
         except ValueError:
@@ -61,8 +62,12 @@ class Check:
 
     def site(self, rid, func, line, construct, ok, detail="", witness=None):
         fname = func if isinstance(func, str) else func.name
-        where = "%s:%s" % (func.unit.file if not isinstance(func, str) else "?", line) if not isinstance(func, str) else str(line)
+        where = "%s:%s" % (func.unit.file if not isinstance(func, str) else func, line)
         s = Site(rid, fname, where, construct, bool(ok), detail, witness)
+        key = (rid, fname, where, construct, bool(ok), detail)
+        if key in self._seen:
+            return s
+        self._seen.add(key)
         self.rules[rid]["sites"].append(s)
         return s
 
